@@ -14,7 +14,10 @@ from mbt.drive import opc as D
 
 # "accessors documented as creating content": the docstring itself says that reading the property creates / is destructive
 CREATING = re.compile(r"destructive|side[- ]effect|one is created|newly created if|newly created with its|are created if|is added if|"
-                      r"to be added if not present|element if not present|adds an? ", re.I)
+                      r"to be added if not present|element if not present|adds an? |"
+                      # a conditional-creation sentence in any word order: "is created on first use when ...", "if absent, one is made"
+                      r"\b(created|added|made|inserted)\b[^.]{0,80}\b(if|when|on first|unless)\b|"
+                      r"\b(if|when)\b[^.]{0,80}\b(not|none|no|absent|missing)\b[^.]{0,60}\b(created|added|made|inserted)\b", re.I | re.S)
 # second opinion on an accessor that DID change the package when read: does its docstring, in any wording, say that reading it
 # creates / adds / inserts something?  Then it is "documented as creating" (a reworded docstring must not raise an alarm); it is
 # consulted only for accessors already caught mutating, so its breadth cannot hide a getter whose docstring promises a plain read
@@ -91,7 +94,7 @@ def in_group(obj, group: str) -> bool:
     return any(mod.startswith(m) for m in GROUP_MODULES[group])
 
 
-def traverse(prs, group: str, stats: dict, limit: int = 4000, only: set | None = None):
+def traverse(prs, group: str, stats: dict, limit: int = 4000, only: set | None = None, skip: frozenset = frozenset()):
     """Read every non-creating public property of every object of `group` reachable from prs; navigate through all groups."""
     seen = set()
     keep = []          # proxies are created on the fly: keep them alive so that id() is not reused within one traversal
@@ -123,6 +126,8 @@ def traverse(prs, group: str, stats: dict, limit: int = 4000, only: set | None =
             stats.setdefault("excluded", set()).add("%s.%s" % (cls.__name__, name))
         nav_only = not in_group(obj, group)
         for name in read:
+            if "%s.%s" % (cls.__name__, name) in skip:
+                continue
             nav = name in NAV and not (cls.__module__.startswith("pptx.chart") and name in ("font", "text_frame", "image"))
             if only is not None:
                 if not nav and "%s.%s" % (cls.__name__, name) not in only:
@@ -282,16 +287,18 @@ def culprits(path: str, group: str, reads: list[str]) -> list[str]:
     pptx.Presentation(path).save(b0)
     base = by_role(D.read_zip(io.BytesIO(b0.getvalue())))
 
-    def changed(only):
+    def changed(only, skip=frozenset()):
         prs = pptx.Presentation(path)
-        traverse(prs, group, {}, only=only)
-        traverse(prs, group, {}, only=only)     # a second pass reaches objects cached by the first (lazy properties)
+        traverse(prs, group, {}, only=only, skip=skip)
+        traverse(prs, group, {}, only=only, skip=skip)     # a second pass reaches objects cached by the first (lazy properties)
         b = io.BytesIO()
         prs.save(b)
         return by_role(D.read_zip(io.BytesIO(b.getvalue()))) != base
     if changed(set()):
-        # navigation alone changes it: isolate among NAV accessors by reading one class's NAV at a time is not possible; report NAV
-        return ["<navigation>"]
+        # navigation alone changes it: the navigation accessor without which nothing changes is the one responsible
+        navs = [a for a in reads if a.split(".")[1] in NAV]
+        out = [a for a in navs if not changed(set(), frozenset([a]))]
+        return out or ["<navigation>"]
     out = []
     for acc in reads:
         if changed({acc}) and not (acc.split(".")[1] in NAV and not changed({acc + "#none"})):
